@@ -2,7 +2,7 @@
    Statements only; proofs live in SMP/. *)
 From Coq Require Import List ZArith Bool.
 From JSL Require Import Base.Res SM.Types SM.Util SM.Handler SM.Step SM.Middleware SM.Inv SM.Example
-  SMP.Reflect SMP.StepInv SMP.Main.
+  SMP.Reflect SMP.StepInv SMP.Main SMP.Clock SMP.FeasStep.
 Import ListNotations.
 
 (* Every job is stored exactly once, every stored number is a job (placement_b), each job's location
@@ -41,6 +41,16 @@ Theorem C03_conservation_step :
     wfs_b i x' = true /\ forall tr y, In (tr, y) lg -> wfs_b i y = true.
 Proof. exact step_wfs_b. Qed.
 Print Assumptions C03_conservation_step.
+
+(* "a busy machine holds exactly one job, an idle machine none" (mach_hold_b) in every state reachable from a
+   compiled initial state - a corollary of the C01 invariant, hence with C01's monitored side condition
+   (reachS = reach + "no AGV took a job in process" on every micro-log). *)
+Theorem C03_machine_holds_one_partial :
+  forall (sigma : oracle) (i : inst) (fuel : nat) (x0 : state) (joker0 : Z) (ta : bool) (r : result) (m : mw),
+    inst_nonneg_b i = true -> clock_b x0 = true -> fresh_b i x0 = true ->
+    reachS sigma i fuel x0 joker0 ta r m -> mach_hold_b (r_x r) = true.
+Proof. intros. eapply reachS_mach_hold_past; eauto. Qed.
+Print Assumptions C03_machine_holds_one_partial.
 
 (* non-vacuity: the compiled initial state of a real instance satisfies the hypothesis, and a
    mid-episode state (after accept, accept, accept, decline, accept) is reachable *)
